@@ -1,13 +1,13 @@
 /-
-C04 proofs — structural invariants (dyingSt): preservation by `exec` and `begin`.
+C04 proofs — structural invariants (dyingSt, walkAct, notWasEmpty, ocItems): preservation by `exec` and `begin`.
 -/
 import TbbVerif.Proofs.C04.StructF
 
 namespace TbbVerif.C04
-variable {cfg : Cfg} {reg : List Nat} {s : St} {t : Nat}
+variable {cfg : Cfg} {r : List RF} {reg : List Nat} {s : St} {t : Nat}
 
-theorem dyingSt_exec (hS : Struct reg s) :
-    ∀ x, (exec cfg reg s t).dying x = true → (exec cfg reg s t).cst x = .dead ∨ ∃ t', ((exec cfg reg s t).pc t').destroying = some x := by
+theorem dyingSt_exec_c (hS : Struct reg s) :
+    ∀ x, (execCancel cfg reg s t).dying x = true → (execCancel cfg reg s t).cst x = .dead ∨ ∃ t', ((execCancel cfg reg s t).pc t').destroying = some x := by
   have g0 := hS.dyingSt
   have g1 := hS.dyingOk
   have g1t := hS.dyingOk t
@@ -15,7 +15,11 @@ theorem dyingSt_exec (hS : Struct reg s) :
   have g2t := hS.bindNotDying t
   have g3 := hS.ownsSt
   have g3t := hS.ownsSt t
-  exec_cases
+  unfold execCancel
+  try unfold walkNext
+  try unfold afterHint
+  try unfold applyReset
+  repeat' split
   all_goals (try rw [‹s.pc t = _›] at g1t)
   all_goals (try simp [Pc.destroying, Pc.owns, Pc.owns_bindTarget] at g1t)
   all_goals (try rw [‹s.pc t = _›] at g2t)
@@ -25,8 +29,63 @@ theorem dyingSt_exec (hS : Struct reg s) :
   all_goals (intro x h1; try simp [upd_apply, afterLists, nextList] at h1 ⊢)
   all_goals grind [Pc.destroying, Pc.owns, Pc.owns_bindTarget]
 
+theorem dyingSt_exec_b (hS : Struct reg s) :
+    ∀ x, (execBind cfg s t).dying x = true → (execBind cfg s t).cst x = .dead ∨ ∃ t', ((execBind cfg s t).pc t').destroying = some x := by
+  have g0 := hS.dyingSt
+  have g1 := hS.dyingOk
+  have g1t := hS.dyingOk t
+  have g2 := hS.bindNotDying
+  have g2t := hS.bindNotDying t
+  have g3 := hS.ownsSt
+  have g3t := hS.ownsSt t
+  unfold execBind
+  try unfold walkNext
+  try unfold afterHint
+  try unfold applyReset
+  repeat' split
+  all_goals (try rw [‹s.pc t = _›] at g1t)
+  all_goals (try simp [Pc.destroying, Pc.owns, Pc.owns_bindTarget] at g1t)
+  all_goals (try rw [‹s.pc t = _›] at g2t)
+  all_goals (try simp [Pc.destroying, Pc.owns, Pc.owns_bindTarget] at g2t)
+  all_goals (try rw [‹s.pc t = _›] at g3t)
+  all_goals (try simp [Pc.destroying, Pc.owns, Pc.owns_bindTarget] at g3t)
+  all_goals (intro x h1; try simp [upd_apply, afterLists, nextList] at h1 ⊢)
+  all_goals grind [Pc.destroying, Pc.owns, Pc.owns_bindTarget]
+
+theorem dyingSt_exec_o (hS : Struct reg s) :
+    ∀ x, (execOther s t).dying x = true → (execOther s t).cst x = .dead ∨ ∃ t', ((execOther s t).pc t').destroying = some x := by
+  have g0 := hS.dyingSt
+  have g1 := hS.dyingOk
+  have g1t := hS.dyingOk t
+  have g2 := hS.bindNotDying
+  have g2t := hS.bindNotDying t
+  have g3 := hS.ownsSt
+  have g3t := hS.ownsSt t
+  unfold execOther
+  try unfold walkNext
+  try unfold afterHint
+  try unfold applyReset
+  repeat' split
+  all_goals (try rw [‹s.pc t = _›] at g1t)
+  all_goals (try simp [Pc.destroying, Pc.owns, Pc.owns_bindTarget] at g1t)
+  all_goals (try rw [‹s.pc t = _›] at g2t)
+  all_goals (try simp [Pc.destroying, Pc.owns, Pc.owns_bindTarget] at g2t)
+  all_goals (try rw [‹s.pc t = _›] at g3t)
+  all_goals (try simp [Pc.destroying, Pc.owns, Pc.owns_bindTarget] at g3t)
+  all_goals (intro x h1; try simp [upd_apply, afterLists, nextList] at h1 ⊢)
+  all_goals grind [Pc.destroying, Pc.owns, Pc.owns_bindTarget]
+
+theorem dyingSt_exec (hS : Struct reg s) :
+    ∀ x, (exec cfg reg s t).dying x = true → (exec cfg reg s t).cst x = .dead ∨ ∃ t', ((exec cfg reg s t).pc t').destroying = some x := by
+  unfold exec
+  split
+  · exact dyingSt_exec_c hS
+  · split
+    · exact dyingSt_exec_b hS
+    · exact dyingSt_exec_o hS
+
 theorem dyingSt_begin (hS : Struct reg s) (hi : s.pc t = .idle) :
-    ∀ x, (begin reg s t).dying x = true → (begin reg s t).cst x = .dead ∨ ∃ t', ((begin reg s t).pc t').destroying = some x := by
+    ∀ x, (begin cfg reg s t).dying x = true → (begin cfg reg s t).cst x = .dead ∨ ∃ t', ((begin cfg reg s t).pc t').destroying = some x := by
   have g0 := hS.dyingSt
   have g1 := hS.dyingOk
   have g1t := hS.dyingOk t
@@ -43,5 +102,232 @@ theorem dyingSt_begin (hS : Struct reg s) (hi : s.pc t = .idle) :
   all_goals (try simp [Pc.destroying, Pc.owns, Pc.owns_bindTarget] at g3t)
   all_goals (intro x h1; try simp [upd_apply, afterLists, nextList] at h1 ⊢)
   all_goals grind [Pc.destroying, Pc.owns, Pc.owns_bindTarget]
+
+theorem walkAct_exec_c (hS : Struct reg s) :
+    ∀ t' i L, ((execCancel cfg reg s t).pc t').atList = some i → reg[i]? = some L → (execCancel cfg reg s t).act L = true := by
+  have g0 := hS.walkAct
+  have g0t := hS.walkAct t
+  have g1 := hS.regMx
+  have g1t := hS.regMx t
+  unfold execCancel
+  try unfold walkNext
+  try unfold afterHint
+  try unfold applyReset
+  repeat' split
+  all_goals (try rw [‹s.pc t = _›] at g0t)
+  all_goals (try simp [Pc.inReg] at g0t)
+  all_goals (try rw [‹s.pc t = _›] at g1t)
+  all_goals (try simp [Pc.inReg] at g1t)
+  all_goals (intro t' i L h1 h2; by_cases ht : t' = t <;> first | (subst ht; try simp [upd_apply, afterLists, Pc.inReg] at h1 h2 ⊢) | (try simp [ht, upd_apply, afterLists] at h1 h2 ⊢))
+  all_goals grind [Pc.inReg , Pc.atList, → nextList_atList, → Pc.atList_inReg]
+
+theorem walkAct_exec_b (hS : Struct reg s) :
+    ∀ t' i L, ((execBind cfg s t).pc t').atList = some i → reg[i]? = some L → (execBind cfg s t).act L = true := by
+  have g0 := hS.walkAct
+  have g0t := hS.walkAct t
+  have g1 := hS.regMx
+  have g1t := hS.regMx t
+  unfold execBind
+  try unfold walkNext
+  try unfold afterHint
+  try unfold applyReset
+  repeat' split
+  all_goals (try rw [‹s.pc t = _›] at g0t)
+  all_goals (try simp [Pc.inReg] at g0t)
+  all_goals (try rw [‹s.pc t = _›] at g1t)
+  all_goals (try simp [Pc.inReg] at g1t)
+  all_goals (intro t' i L h1 h2; by_cases ht : t' = t <;> first | (subst ht; try simp [upd_apply, afterLists, Pc.inReg] at h1 h2 ⊢) | (try simp [ht, upd_apply, afterLists] at h1 h2 ⊢))
+  all_goals grind [Pc.inReg , Pc.atList, → nextList_atList, → Pc.atList_inReg]
+
+theorem walkAct_exec_o (hS : Struct reg s) :
+    ∀ t' i L, ((execOther s t).pc t').atList = some i → reg[i]? = some L → (execOther s t).act L = true := by
+  have g0 := hS.walkAct
+  have g0t := hS.walkAct t
+  have g1 := hS.regMx
+  have g1t := hS.regMx t
+  unfold execOther
+  try unfold walkNext
+  try unfold afterHint
+  try unfold applyReset
+  repeat' split
+  all_goals (try rw [‹s.pc t = _›] at g0t)
+  all_goals (try simp [Pc.inReg] at g0t)
+  all_goals (try rw [‹s.pc t = _›] at g1t)
+  all_goals (try simp [Pc.inReg] at g1t)
+  all_goals (intro t' i L h1 h2; by_cases ht : t' = t <;> first | (subst ht; try simp [upd_apply, afterLists, Pc.inReg] at h1 h2 ⊢) | (try simp [ht, upd_apply, afterLists] at h1 h2 ⊢))
+  all_goals grind [Pc.inReg , Pc.atList, → nextList_atList, → Pc.atList_inReg]
+
+theorem walkAct_exec (hS : Struct reg s) :
+    ∀ t' i L, ((exec cfg reg s t).pc t').atList = some i → reg[i]? = some L → (exec cfg reg s t).act L = true := by
+  unfold exec
+  split
+  · exact walkAct_exec_c hS
+  · split
+    · exact walkAct_exec_b hS
+    · exact walkAct_exec_o hS
+
+theorem walkAct_begin (hS : Struct reg s) (hi : s.pc t = .idle) :
+    ∀ t' i L, ((begin cfg reg s t).pc t').atList = some i → reg[i]? = some L → (begin cfg reg s t).act L = true := by
+  have g0 := hS.walkAct
+  have g0t := hS.walkAct t
+  have g1 := hS.regMx
+  have g1t := hS.regMx t
+  begin_cases
+  all_goals (try rw [hi] at g0t)
+  all_goals (try simp [Pc.inReg] at g0t)
+  all_goals (try rw [hi] at g1t)
+  all_goals (try simp [Pc.inReg] at g1t)
+  all_goals (intro t' i L h1 h2; by_cases ht : t' = t <;> first | (subst ht; try simp [upd_apply, afterLists, Pc.inReg] at h1 h2 ⊢) | (try simp [ht, upd_apply, afterLists] at h1 h2 ⊢))
+  all_goals grind [Pc.inReg , Pc.atList, → nextList_atList, → Pc.atList_inReg]
+
+theorem notWasEmpty_exec_c (hS : Struct reg s) :
+    ∀ L, (execCancel cfg reg s t).wasReg L = false → (execCancel cfg reg s t).items L = [] := by
+  have g0 := hS.notWasEmpty
+  have g1 := hS.bindAct
+  have g1t := hS.bindAct t
+  have g2 := hS.actWas
+  have g3 := hS.regPc
+  have g3t := hS.regPc t
+  unfold execCancel
+  try unfold walkNext
+  try unfold afterHint
+  try unfold applyReset
+  repeat' split
+  all_goals (try rw [‹s.pc t = _›] at g1t)
+  all_goals (try simp [Pc.isBind] at g1t)
+  all_goals (try rw [‹s.pc t = _›] at g3t)
+  all_goals (try simp [Pc.isBind] at g3t)
+  all_goals (intro L h1; try simp [upd_apply, afterLists, nextList] at h1 ⊢)
+  all_goals grind [Pc.isBind]
+
+theorem notWasEmpty_exec_b (hS : Struct reg s) :
+    ∀ L, (execBind cfg s t).wasReg L = false → (execBind cfg s t).items L = [] := by
+  have g0 := hS.notWasEmpty
+  have g1 := hS.bindAct
+  have g1t := hS.bindAct t
+  have g2 := hS.actWas
+  have g3 := hS.regPc
+  have g3t := hS.regPc t
+  unfold execBind
+  try unfold walkNext
+  try unfold afterHint
+  try unfold applyReset
+  repeat' split
+  all_goals (try rw [‹s.pc t = _›] at g1t)
+  all_goals (try simp [Pc.isBind] at g1t)
+  all_goals (try rw [‹s.pc t = _›] at g3t)
+  all_goals (try simp [Pc.isBind] at g3t)
+  all_goals (intro L h1; try simp [upd_apply, afterLists, nextList] at h1 ⊢)
+  all_goals grind [Pc.isBind]
+
+theorem notWasEmpty_exec_o (hS : Struct reg s) :
+    ∀ L, (execOther s t).wasReg L = false → (execOther s t).items L = [] := by
+  have g0 := hS.notWasEmpty
+  have g1 := hS.bindAct
+  have g1t := hS.bindAct t
+  have g2 := hS.actWas
+  have g3 := hS.regPc
+  have g3t := hS.regPc t
+  unfold execOther
+  try unfold walkNext
+  try unfold afterHint
+  try unfold applyReset
+  repeat' split
+  all_goals (try rw [‹s.pc t = _›] at g1t)
+  all_goals (try simp [Pc.isBind] at g1t)
+  all_goals (try rw [‹s.pc t = _›] at g3t)
+  all_goals (try simp [Pc.isBind] at g3t)
+  all_goals (intro L h1; try simp [upd_apply, afterLists, nextList] at h1 ⊢)
+  all_goals grind [Pc.isBind]
+
+theorem notWasEmpty_exec (hS : Struct reg s) :
+    ∀ L, (exec cfg reg s t).wasReg L = false → (exec cfg reg s t).items L = [] := by
+  unfold exec
+  split
+  · exact notWasEmpty_exec_c hS
+  · split
+    · exact notWasEmpty_exec_b hS
+    · exact notWasEmpty_exec_o hS
+
+theorem notWasEmpty_begin (hS : Struct reg s) (hi : s.pc t = .idle) :
+    ∀ L, (begin cfg reg s t).wasReg L = false → (begin cfg reg s t).items L = [] := by
+  have g0 := hS.notWasEmpty
+  have g1 := hS.bindAct
+  have g1t := hS.bindAct t
+  have g2 := hS.actWas
+  have g3 := hS.regPc
+  have g3t := hS.regPc t
+  begin_cases
+  all_goals (try rw [hi] at g1t)
+  all_goals (try simp [Pc.isBind] at g1t)
+  all_goals (try rw [hi] at g3t)
+  all_goals (try simp [Pc.isBind] at g3t)
+  all_goals (intro L h1; try simp [upd_apply, afterLists, nextList] at h1 ⊢)
+  all_goals grind [Pc.isBind]
+
+theorem ocItems_exec_c (hS : Struct reg s) :
+    ∀ L x, x ∈ (execCancel cfg reg s t).items L → (execCancel cfg reg s t).act L = false → (execCancel cfg reg s t).oc x = true := by
+  have g0 := hS.ocItems
+  have g1 := hS.bindAct
+  have g1t := hS.bindAct t
+  unfold execCancel
+  try unfold walkNext
+  try unfold afterHint
+  try unfold applyReset
+  repeat' split
+  all_goals (try rw [‹s.pc t = _›] at g1t)
+  all_goals (try simp [Pc.isBind, List.mem_cons, List.mem_of_mem_erase] at g1t)
+  all_goals (intro L x h1 h2; try simp [upd_apply, afterLists, nextList] at h1 h2 ⊢)
+  all_goals grind [Pc.isBind, List.mem_cons, List.mem_of_mem_erase]
+
+theorem ocItems_exec_b (hS : Struct reg s) :
+    ∀ L x, x ∈ (execBind cfg s t).items L → (execBind cfg s t).act L = false → (execBind cfg s t).oc x = true := by
+  have g0 := hS.ocItems
+  have g1 := hS.bindAct
+  have g1t := hS.bindAct t
+  unfold execBind
+  try unfold walkNext
+  try unfold afterHint
+  try unfold applyReset
+  repeat' split
+  all_goals (try rw [‹s.pc t = _›] at g1t)
+  all_goals (try simp [Pc.isBind, List.mem_cons, List.mem_of_mem_erase] at g1t)
+  all_goals (intro L x h1 h2; try simp [upd_apply, afterLists, nextList] at h1 h2 ⊢)
+  all_goals grind [Pc.isBind, List.mem_cons, List.mem_of_mem_erase]
+
+theorem ocItems_exec_o (hS : Struct reg s) :
+    ∀ L x, x ∈ (execOther s t).items L → (execOther s t).act L = false → (execOther s t).oc x = true := by
+  have g0 := hS.ocItems
+  have g1 := hS.bindAct
+  have g1t := hS.bindAct t
+  unfold execOther
+  try unfold walkNext
+  try unfold afterHint
+  try unfold applyReset
+  repeat' split
+  all_goals (try rw [‹s.pc t = _›] at g1t)
+  all_goals (try simp [Pc.isBind, List.mem_cons, List.mem_of_mem_erase] at g1t)
+  all_goals (intro L x h1 h2; try simp [upd_apply, afterLists, nextList] at h1 h2 ⊢)
+  all_goals grind [Pc.isBind, List.mem_cons, List.mem_of_mem_erase]
+
+theorem ocItems_exec (hS : Struct reg s) :
+    ∀ L x, x ∈ (exec cfg reg s t).items L → (exec cfg reg s t).act L = false → (exec cfg reg s t).oc x = true := by
+  unfold exec
+  split
+  · exact ocItems_exec_c hS
+  · split
+    · exact ocItems_exec_b hS
+    · exact ocItems_exec_o hS
+
+theorem ocItems_begin (hS : Struct reg s) (hi : s.pc t = .idle) :
+    ∀ L x, x ∈ (begin cfg reg s t).items L → (begin cfg reg s t).act L = false → (begin cfg reg s t).oc x = true := by
+  have g0 := hS.ocItems
+  have g1 := hS.bindAct
+  have g1t := hS.bindAct t
+  begin_cases
+  all_goals (try rw [hi] at g1t)
+  all_goals (try simp [Pc.isBind, List.mem_cons, List.mem_of_mem_erase] at g1t)
+  all_goals (intro L x h1 h2; try simp [upd_apply, afterLists, nextList] at h1 h2 ⊢)
+  all_goals grind [Pc.isBind, List.mem_cons, List.mem_of_mem_erase]
 
 end TbbVerif.C04
